@@ -103,3 +103,12 @@ Theorem C19_new_polygon_at_crossing :
     gen_isContributingClosed fr ct w1 c is_subj && gen_isContributingClosed fr ct w2 c is_subj.
 Proof. exact newpoly_same_set_is_both_contributing. Qed.
 Print Assumptions C19_new_polygon_at_crossing.
+
+(* K3, second batch (engine.go, regenerated on every run): the very-small-triangle filter that every operation's output
+   passes through drops a ring only when two vertices are within one unit in BOTH coordinates — an operation cannot lose a
+   triangle the other three keep *)
+From Clip Require Import Gen.Kernels2_gen Model.Kernel2Proofs.
+Theorem C19_ptsReallyClose_from_source : forall x1 y1 x2 y2,
+  (Z.abs x1 < 2 ^ 62 -> Z.abs y1 < 2 ^ 62 -> Z.abs x2 < 2 ^ 62 -> Z.abs y2 < 2 ^ 62 ->
+  (gen_ptsReallyClose x1 y1 x2 y2 = true <-> (Z.abs (x1 - x2) < 2 /\ Z.abs (y1 - y2) < 2)))%Z.
+Proof. exact ptsReallyClose_spec. Qed.
